@@ -251,9 +251,7 @@ def _ss_pre(E):
                                z3.MultiPattern(C1.rev(x), C1.rev(y))]))
 
 
-REG.add(Contract(MMOD, "Model.tolerance@setter", "C12", [("self", TRef("Model")), ("value", TReal())], [Case("any")], assumed=True,
-                 key="Model.tolerance@setter",
-                 note="writes the three optlang tolerances of the solver configuration and self._tolerance; touches no cobra object"))
+from . import w_model_small as WMS  # noqa  Model.tolerance@setter: PROVED there (was an assumed contract here until round 5)
 _ss_cases = []
 for _ws in (True, False):
     _c = Case("with_solver" if _ws else "without_solver", ensures=_ss_post(_ws))
@@ -261,6 +259,7 @@ for _ws in (True, False):
     _ss_cases.append(_c)
 REG.add(Contract(MMOD, "Model.__setstate__", "C12", [("self", TObj("Model", {})), ("state", TRef("dict"))], _ss_cases,
                  pre=_ss_pre, key="Model.__setstate__",
-                 modifies=lambda E: [("heap", "_model"), ("heap", "var_lb"), ("heap", "var_ub"), ("obj", E["self"])],
+                 modifies=lambda E: [("heap", "_model"), ("heap", "var_lb"), ("heap", "var_ub"), ("obj", E["self"])]
+                 + [("heap", "tol_" + t) for t in WMS.TOLS],      # the solver's three tolerances are re-installed (proved setter)
                  loops={1: LoopSpec(_ss_inv_members, lambda E, Lc: [("heap", "_model")]),
                         2: LoopSpec(_ss_inv_bounds, lambda E, Lc: [("heap", "var_lb"), ("heap", "var_ub")])}))
